@@ -224,9 +224,42 @@ def creates_cycle(tabs, col_id, formula):
 # found there are pinned by the fixed WITNESSES below instead.
 MIX = {"update": 16, "bulk_update": 10, "add": 10, "bulk_add": 6, "remove": 8, "bulk_remove": 4,
        "add_temp": 3, "upsert": 2, "rename_col": 3, "rename_table": 1, "add_col": 3, "add_table": 1,
-       "label": 1, "invalid": 1, "formula": 26, "multi": 14}
+       "label": 1, "invalid": 1, "formula": 26, "multi": 14, "list_edit": 8}
 MULTI_KINDS = ["add", "update", "update", "update", "remove", "bulk_update", "bulk_update", "formula",
-               "formula", "rename_col", "add_col", "invalid"]
+               "formula", "rename_col", "add_col", "invalid", "list_edit"]
+
+
+# One small edit of a list-valued cell (RefList / ChoiceList): the new value is DERIVED from the
+# value the cell holds now, so that old and new value share a prefix / a suffix / most elements and
+# may hold the same element more than once - the inputs on which an index that is maintained by
+# diffing the old against the new value (reference relations, CONTAINS lookup indexes) can go wrong.
+LIST_EDITS = ("drop", "drop_last", "replace", "replace_last", "insert", "append", "dup", "dup_end",
+              "swap", "truncate", "undup")
+
+def edited_list(rng, cur, universe):
+  """cur: list of elements (may be empty); universe: elements to draw new ones from."""
+  cur = list(cur)
+  op = rng.choice(LIST_EDITS)
+  if not cur:
+    k = rng.randint(1, 3)
+    return [rng.choice(universe) for _ in range(k)] if universe else []      # repeats allowed
+  i = rng.randrange(len(cur))
+  new = rng.choice(universe) if universe else cur[i]
+  if op == "drop": del cur[i]
+  elif op == "drop_last": cur.pop()
+  elif op == "replace": cur[i] = new
+  elif op == "replace_last": cur[-1] = new
+  elif op == "insert": cur.insert(i, new)
+  elif op == "append": cur.append(new)
+  elif op == "dup": cur.insert(rng.randint(0, len(cur)), cur[i])
+  elif op == "dup_end": cur.append(cur[i])
+  elif op == "swap":
+    j = rng.randrange(len(cur)); cur[i], cur[j] = cur[j], cur[i]
+  elif op == "truncate": cur = cur[:i]
+  elif op == "undup":                      # drop ONE occurrence of an element that occurs twice
+    twice = [k for k, x in enumerate(cur) if cur.count(x) > 1]
+    del cur[rng.choice(twice) if twice else i]
+  return cur[:5]
 
 
 # Seed document with same-row chains THROUGH lookup-valued columns: A reads B, B is a lookup, and A's
@@ -279,23 +312,73 @@ class C05Monitor(explore.Monitor):
                                          "isFormula": True, "formula": f}]
     return None
 
-  def one(self, e, g, kind):
+  def list_edit(self, st, e, g):
+    """UpdateRecord that gives one RefList / ChoiceList data cell a small edit of its current value
+    (edited_list).  For a RefList, the rows the cell referenced before or references now are
+    remembered in st['touch']: one of the next bundles edits a field of one of them (touch), which
+    is when a reference index that lost track of the cell shows."""
+    rng = g.rng
+    tabs = g.doc(e)
+    cands = [(t, c) for t in g.data_tables(tabs) if tabs[t][1] for c in tabs[t][0]
+             if not c[2] and not c[3] and (c[1] == "ChoiceList" or c[1].startswith("RefList:"))]
+    if not cands: return None
+    t, c = rng.choice(cands)
+    r = rng.choice(tabs[t][1])
+    try:
+      cur = e.tables[t].get_column(c[0]).raw_get(r)
+    except Exception:
+      cur = None
+    cur = list(cur) if isinstance(cur, (list, tuple)) else []
+    if c[1] == "ChoiceList":
+      universe, target = ["a", "b", "c"], None
+    else:
+      target = c[1].split(":")[1]
+      universe = list(tabs[target][1])[:4] if target in tabs else []
+    new = edited_list(rng, cur, universe)
+    if target and st is not None:
+      ids = sorted(set(x for x in cur + new if isinstance(x, int)))
+      if ids: st["touch"] = (target, ids)
+    return ["UpdateRecord", t, r, {c[0]: ["L"] + new}]
+
+  def touch(self, st, e, g):
+    """UpdateRecord of data fields of a row that an edited RefList cell referenced or references."""
+    target, ids = st.pop("touch")
+    tabs = g.doc(e)
+    if target not in tabs: return None
+    ids = [i for i in ids if i in tabs[target][1]]
+    data = [c for c in tabs[target][0] if not c[2] and c[0] != "manualSort"
+            and not c[1].startswith("Ref")]
+    if not ids or not data: return None
+    vals = {}
+    for c in data:
+      if g.rng.random() < 0.7:
+        vals[c[0]] = g.rng.choice(gen.values_for(c[1], g.rng, e, g.rows_of(e)))
+    if not vals: return None
+    return ["UpdateRecord", target, g.rng.choice(ids), vals]
+
+  def one(self, e, g, kind, st=None):
     if kind == "formula":
       a = self.formula_action(e, g)
+      return [a] if a else []
+    if kind == "list_edit":
+      a = self.list_edit(st, e, g)
       return [a] if a else []
     a = g.action(e, kind)
     return list(a[1]) if isinstance(a, tuple) else [a]
 
   def gen_bundle(self, st, e, g):
     rng = g.rng
+    if st.get("touch") and rng.random() < 0.6:
+      a = self.touch(st, e, g)
+      if a: return [a]
     kinds = sorted(MIX)
     kind = rng.choices(kinds, [MIX[k] for k in kinds])[0]
     if kind == "multi":
       acts = []
       for _ in range(rng.randint(2, 3)):
-        acts.extend(self.one(e, g, rng.choice(MULTI_KINDS)))
+        acts.extend(self.one(e, g, rng.choice(MULTI_KINDS), st))
       return acts or self.one(e, g, "update")
-    return self.one(e, g, kind) or self.one(e, g, "update")
+    return self.one(e, g, kind, st) or self.one(e, g, "update")
 
   def start(self, e, seed_name):
     return {}
@@ -507,7 +590,154 @@ WITNESSES = [
              [["ModifyColumn", "T9", "k", {"type": "Choice"}]],
              [["UpdateRecord", "T9", 1, {"v": 20}]]],
    "record-held-in-any-column-keeps-dead-lookup-relation"),
+  # a chain of THREE lookups, each keyed by the formula column the previous one fills (T1.E looks up
+  # T0 by a data key, T2.F looks up T1 by E, T3.G looks up T2 by F and also reads a data cell of its
+  # own).  One bundle edits the first key and G's own data cell: G[1] is computed in the first round
+  # of the pass (dirty through its own input) while the index on F is still clean, because the
+  # invalidation started by T0's index has only reached E; when it arrives, G[1] is already in
+  # _recompute_done_map and the invalidation is dropped (same rule as
+  # C05-cell-computed-once-per-pass, reached without any index pulling a cell early)
+  ("basic", [[["AddTable", "T0", [_col("k0", "Text"), _col("v0", "Text")]],
+              ["AddTable", "T1", [_col("x1", "Text"), _col("E", "Any", "T0.lookupOne(k0=$x1).v0")]],
+              ["AddTable", "T2", [_col("x2", "Text"), _col("F", "Any", "T1.lookupOne(E=$x2).x1")]],
+              ["AddTable", "T3", [_col("x3", "Text"), _col("y3", "Text"),
+                                  _col("G", "Any", "T2.lookupOne(F=$x3).x2 + '/' + $y3")]]],
+             [["BulkAddRecord", "T0", [None, None], {"k0": ["zz", "b"], "v0": ["V1", "V2"]}],
+              ["BulkAddRecord", "T1", [None, None], {"x1": ["a", "b"]}],
+              ["BulkAddRecord", "T2", [None, None], {"x2": ["V1", "V2"]}],
+              ["BulkAddRecord", "T3", [None, None], {"x3": ["a", "b"], "y3": ["p", "q"]}]],
+             [["UpdateRecord", "T0", 1, {"k0": "a"}], ["UpdateRecord", "T3", 1, {"y3": "P"}]]],
+   "three-level-lookup-chain-and-own-input-edited-in-one-bundle"),
 ]
+
+
+# ------------------------------------------------------------------------------------------------
+# exhaustive small scope: every (old value, new value) pair of one RefList cell
+# ------------------------------------------------------------------------------------------------
+# The reference index behind a Ref / RefList column (who references row X?) is maintained
+# incrementally from the old and the new value of an edited cell; the formulas below read THROUGH
+# the RefList, so they follow later edits of the referenced rows only if that index is right.
+# Document: A(n, s) with 3 rows; B(rl RefList:A) with row 1 = the edited cell and row 2 = ['L', 3]
+# (never edited); readers of B.rl by iteration, by attribute of the record set, by SUM, and - from
+# A - by a CONTAINS lookup.
+gen.SEEDS["c05_reflist"] = [
+  [["AddTable", "A", [_col("n", "Int"), _col("s", "Text")]],
+   ["AddTable", "B", [_col("rl", "RefList:A"),
+                      _col("x", "Any", "sum(r.n or 0 for r in $rl)"),
+                      _col("y", "Any", "$rl.s"),
+                      _col("z", "Int", "SUM($rl.n)"),
+                      _col("w", "Any", "[r.id for r in $rl]")]],
+   ["AddColumn", "A", "back", {"type": "Any", "isFormula": True,
+                               "formula": "[b.id for b in B.lookupRecords(rl=CONTAINS($id))]"}],
+   ["AddColumn", "A", "tot", {"type": "Any", "isFormula": True,
+                              "formula": "sum(b.x for b in B.lookupRecords(rl=CONTAINS($id)))"}]],
+  [["BulkAddRecord", "A", [None, None, None], {"n": [1, 2, 3], "s": ["a", "b", "c"]}],
+   ["BulkAddRecord", "B", [None, None], {"rl": [None, ["L", 3]]}]],
+]
+REFLIST_IDS = (1, 2, 3)
+
+
+def reflist_values(maxlen):
+  """every list over REFLIST_IDS of length <= maxlen, repeats included"""
+  import itertools
+  out = []
+  for k in range(maxlen + 1):
+    out += [list(p) for p in itertools.product(REFLIST_IDS, repeat=k)]
+  return out
+
+
+def pair_bundles(old, new):
+  """one cell (row 1 of B): set it to old; set it to new; edit field n of every row of A"""
+  return [[["UpdateRecord", "B", 1, {"rl": ["L"] + old}]],
+          [["UpdateRecord", "B", 1, {"rl": ["L"] + new}]],
+          [["BulkUpdateRecord", "A", list(REFLIST_IDS), {"n": [10 + i for i in REFLIST_IDS]}]]]
+
+
+def batch_bundles(old, values):
+  """The pairs (old, v) for every v of `values` at once, one cell each: rows 3.. are added to B (one
+  per value), all are set to `old`, then row i is set to values[i], then field n of every row of A is
+  edited.  The cells are independent of each other (each row's formulas read its own cell only)."""
+  rows = list(range(3, 3 + len(values)))
+  return [[["BulkAddRecord", "B", rows, {}]],
+          [["BulkUpdateRecord", "B", rows, {"rl": [["L"] + old for _ in rows]}]],
+          [["BulkUpdateRecord", "B", rows, {"rl": [["L"] + v for v in values]}]],
+          [["BulkUpdateRecord", "A", list(REFLIST_IDS), {"n": [10 + i for i in REFLIST_IDS]}]]]
+
+
+def _reflist_worker(task):
+  """For every old value of the share: a fresh engine, batch_bundles(old, all values), then the clause
+  C05.equals_scratch.  Every differing row of B names a failing pair (old, new); the first ones are
+  replayed alone as the 3-bundle history pair_bundles(old, new) on a fresh engine and reported in
+  that form when they fail there too (with the batch history otherwise)."""
+  import traceback
+  olds, maxlen = task
+  out = {"pairs": 0, "failures": [], "crash": None}
+  try:
+    m = C05Monitor()
+    values = reflist_values(maxlen)
+    for old in olds:
+      e = eng.new_engine()
+      for b in gen.seed_history("c05_reflist"): eng.apply(e, b)
+      batch = batch_bundles(old, values)
+      for b in batch: eng.apply(e, b)
+      out["pairs"] += len(values) - 1
+      d = compare_formula_columns(e, scratch(e), limit=1000)
+      if not d or len(out["failures"]) >= 2:
+        continue
+      rows = sorted(set(r for (t, c, r, x, y) in d if t == "B" and r is not None and r >= 3))
+      done = False
+      for r in rows[:3]:
+        bundles = pair_bundles(old, values[r - 3])
+        failures, _, _ = explore.run_history(m, "c05_reflist", bundles)
+        if failures:
+          f = failures[0]
+          out["failures"].append({"clause": f["clause"], "class": f["class"], "detail": f["detail"],
+                                  "history": bundles[:f["at"] + 1]})
+          done = True
+          break
+      if not done:
+        failures, _, _ = explore.run_history(m, "c05_reflist", batch)
+        for f in failures[:1]:
+          out["failures"].append({"clause": f["clause"], "class": f["class"], "detail": f["detail"],
+                                  "history": batch[:f["at"] + 1]})
+  except Exception:
+    out["crash"] = traceback.format_exc(limit=8)
+  return out
+
+
+def run_reflist_pairs(rep):
+  import multiprocessing as mp
+  maxlen = 3 if common.tier() == "quick" else 4
+  values = reflist_values(maxlen)
+  procs = min(16, os.cpu_count() or 4)
+  tasks = [(values[i::procs], maxlen) for i in range(procs)]
+  eng.new_engine()
+  with mp.get_context("fork").Pool(procs) as pool:
+    outs = pool.map(_reflist_worker, [t for t in tasks if t[0]])
+  pairs, seen = 0, set()
+  for o in outs:
+    if o["crash"]:
+      rep.crash("RefList pair enumeration: " + o["crash"]); continue
+    pairs += o["pairs"]
+    for f in o["failures"]:
+      if f["class"] in seen: continue             # one witness per root-cause class
+      seen.add(f["class"])
+      rep.violation("%s-%s" % (f["clause"], f["class"]),
+                    {"obligation": f["clause"], "class": f["class"], "seed_doc": "c05_reflist",
+                     "history": f["history"], "detail": f["detail"], "tier": "bounded",
+                     "how_to_replay": "apply SEEDS['c05_reflist'] (checks/C05.py) then `history` "
+                     "bundle by bundle on a fresh engine (vlib.rtc.explore.run_history)"})
+  rep.coverage["evaluations"] = rep.coverage.get("evaluations", 0) + pairs
+  rep.coverage["distinct_nontrivial"] = rep.coverage.get("distinct_nontrivial", 0) + pairs
+  rep.coverage["reflist_pairs"] = {
+    "exhaustive_over": "every ordered pair (old, new), old != new, of values of one RefList cell "
+                       "drawn from the lists over %d target rows of length <= %d, repeats included "
+                       "(%d values)" % (len(REFLIST_IDS), maxlen, len(values)),
+    "pairs": pairs, "complete": pairs == len(values) * (len(values) - 1),
+    "per_pair": "[set old], [set new], [edit field n of every target row], then the clause; the "
+                "pairs of one old value are run together, one cell (row of B) per new value, and "
+                "the clause is evaluated once per old value (%d comparisons with the "
+                "specification function)" % len(values)}
 
 
 def run_witnesses(rep):
@@ -553,6 +783,7 @@ def main():
     "changed the document or raised")
   explore.explore(rep, "checks.C05", "C05Monitor", n_quick=160, n_thorough=4000,
                   budget_quick_s=45, budget_thorough_s=800)
+  run_reflist_pairs(rep)
   run_witnesses(rep)
   rep.coverage["action_mix"] = MIX
   rep.coverage["outside_the_bound"] = (
